@@ -45,7 +45,7 @@ def fusion_adjacent_reason(t1, t2, mode):
 
 
 def design_models(rep, tier):
-    r = tlc("mc/MC_LuaOps", workers=8, timeout=1800, env={"D3": "1"}, xmx="8g")
+    r = tlc("mc/MC_LuaOps", workers=8, timeout=3600, env={"D3": "1", "TRAILFULL": "1" if tier == "thorough" else "0"}, xmx="12g")
     if r.rc == 12 and r.invariant_violated:
         m = re.findall(r"/\\ t = (<<.*>>)", r.out)
         rep.violation({"cause": "design_theorem", "invariant": r.invariant_violated, "tree": m[-1] if m else "?"},
@@ -95,12 +95,26 @@ def select_optrees(cases, tier, rng):
         out += by.get(fam, [])
     d3 = by.get("d3", [])
     out += d3 if tier == "thorough" else vlib.sample(d3, 3000, rng)
+    # trail: quick replays the spines that END in a dangling construct (if-expression, assertion, parentheses, unary)
+    trail = by.get("trail", [])
+    out += trail if tier == "thorough" else [c for c in trail if dangling_tail(c["tree"])]
     res = []
     for k, c in enumerate(out):
         res.append({"id": "t%d" % k, "fam": c["fam"], "tree": c["tree"], "mc_trig": c["trig"], "mc_pp": c["pp"]})
         if c["fam"] in ("neg", "leafpair") and k % 7 == 0:
             res.append({"id": "t%dz" % k, "fam": c["fam"], "tree": c["tree"], "mc_trig": c["trig"], "mc_pp": c["pp"], "neg": ["num", "-0"]})
     return res, len(d3)
+
+
+def dangling_tail(tree):
+    """the deepest operator of the (single) spine of a trail tree is an if-expression, assertion, parentheses or unary"""
+    spine = [x for x in tree[1:] if len(x) > 1]
+    node = spine[0] if spine else tree
+    while True:
+        nxt = [x for x in node[1:] if len(x) > 1]
+        if not nxt:
+            return node[0] in ("ifx", "cast", "par", "not", "u-", "#")
+        node = nxt[0]
 
 
 def random_cases(tier, seed):
@@ -286,11 +300,13 @@ def run(tier):
         if tier == "thorough":
             d3 = [c for c in opt if c["fam"] == "d3"]
             wide = set(c["id"] for c in vlib.sample(d3, 15000, rng))
-            groups = (("optree", [c for c in opt if c["fam"] != "d3" or c["id"] in wide], spans),
+            groups = (("optree", [c for c in opt if c["fam"] not in ("d3", "trail") or c["id"] in wide], spans),
+                      ("optree-trail", [c for c in opt if c["fam"] == "trail"], [0, 80]),
                       ("optree-d3", [c for c in d3 if c["id"] not in wide], SPANS_QUICK),
                       ("catalogue", cat + pinned, spans), ("random", rnd, spans))
         else:
-            groups = (("optree", opt, spans), ("catalogue", cat + pinned, spans), ("random", rnd, spans))
+            groups = (("optree", [c for c in opt if c["fam"] != "trail"], spans), ("optree-trail", [c for c in opt if c["fam"] == "trail"], [80]),
+                      ("catalogue", cat + pinned, spans), ("random", rnd, spans))
         for label, cs, sp in groups:
             t0 = __import__("time").time()
             st, sm = run_cases(rep, cs, tier, label, sp)
@@ -305,7 +321,7 @@ def run(tier):
         "transitions": (mc.generated if mc else 0) + (fusion or {}).get("transitions", 0) + total.get("transitions", 0),
         "exhaustive": True,
         "design_theorem": {"trees_checked_by_tlc": len(mc_cases), "theorem_fails_only_under_open_trigger": sum(1 for c in mc_cases if not c["pp"]),
-                           "families": {f: sum(1 for c in mc_cases if c["fam"] == f) for f in ("d2", "neg", "leafpair", "d3x", "d3")}},
+                           "families": {f: sum(1 for c in mc_cases if c["fam"] == f) for f in ("d2", "neg", "leafpair", "d3x", "trail", "d3")}},
         "fusion_theorem": {k: v for k, v in (fusion or {}).items() if k != "table"},
         "fusion_table": (fusion or {}).get("table", []),
         "traces_validated_against_impl": total.get("texts_lexed_by_tlc", 0),
